@@ -1,0 +1,54 @@
+// This Source Code Form is subject to the terms of the Mozilla Public
+// License, v. 2.0. If a copy of the MPL was not distributed with this
+// file, You can obtain one at http://mozilla.org/MPL/2.0/.
+
+//go:build verif
+
+package controllerstate
+
+// Contracts for the deductive verifier in /verif (govc). Comment-only file: it
+// adds no code. Lines starting with //@ are parsed by govc; see /verif/DESIGN.md.
+//
+// C08, confinement: the access predicates equal their specification (transcribed from the
+// property statement), every delegated call is dominated by the right check (assertions placed at
+// the call sites), and a rejected operation performs no delegated call.
+
+//@ pred isOutputType(a *StateAdapter, t string) := exists i int :: 0 <= i && i < len(a.Outputs) && a.Outputs[i].Type == t
+//@ pred finalizerKind(k controller.InputKind) := k == controller.InputStrong || k == controller.InputQPrimary || k == controller.InputQMapped
+//@ pred canFinalize(a *StateAdapter, ns string, t string, id string) := exists i int :: 0 <= i && i < len(a.Inputs) &&
+//@   a.Inputs[i].Namespace == ns && a.Inputs[i].Type == t && finalizerKind(a.Inputs[i].Kind) &&
+//@   (!a.Inputs[i].ID.present || a.Inputs[i].ID.value == id)
+//@ pred canReadInput(a *StateAdapter, ns string, t string, idPresent bool, id string) := exists i int :: 0 <= i && i < len(a.Inputs) &&
+//@   a.Inputs[i].Namespace == ns && a.Inputs[i].Type == t &&
+//@   (!a.Inputs[i].ID.present || (idPresent && a.Inputs[i].ID.value == id))
+//@
+//@ func (*StateAdapter).isOutput
+//@   props C08
+//@   pure
+//@   requires adapter != nil
+//@   ensures [is-output-exact] result <==> isOutputType(adapter, resourceType)
+//@   loop #1
+//@     invariant [scanned] forall j int :: 0 <= j && j <= rangeindex ==> adapter.Outputs[j].Type != resourceType
+//@
+//@ func (*StateAdapter).checkFinalizerAccess
+//@   props C08
+//@   pure
+//@   requires adapter != nil
+//@   ensures [finalizer-access-exact] (result == nil) <==> canFinalize(adapter, resourceNamespace, resourceType, resourceID)
+//@   loop #1
+//@     invariant [scanned] forall j int :: 0 <= j && j <= rangeindex ==> !(adapter.Inputs[j].Namespace == resourceNamespace &&
+//@       adapter.Inputs[j].Type == resourceType && finalizerKind(adapter.Inputs[j].Kind) &&
+//@       (!adapter.Inputs[j].ID.present || adapter.Inputs[j].ID.value == resourceID))
+//@
+//@ func (*StateAdapter).checkReadAccess
+//@   props C08
+//@   pure
+//@   requires adapter != nil
+//@   ensures [read-access-sound] result == nil ==> (isOutputType(adapter, resourceType) ||
+//@     canReadInput(adapter, resourceNamespace, resourceType, resourceID.present, resourceID.value))
+//@   ensures [read-access-complete] (isOutputType(adapter, resourceType) ||
+//@     canReadInput(adapter, resourceNamespace, resourceType, resourceID.present, resourceID.value)) ==> result == nil
+//@   loop #1
+//@     invariant [scanned] !isOutputType(adapter, resourceType) && (forall j int :: 0 <= j && j <= rangeindex ==>
+//@       !(adapter.Inputs[j].Namespace == resourceNamespace && adapter.Inputs[j].Type == resourceType &&
+//@         (!adapter.Inputs[j].ID.present || (resourceID.present && adapter.Inputs[j].ID.value == resourceID.value))))
